@@ -1599,7 +1599,7 @@ function remove_redundant_table_name(query_text) {
 }
 
 
-function select_output_header(input_header, join_header, query_column_infos) {
+function select_output_header(input_header, join_header, query_column_infos, leading_column_names=null) {
     if (input_header === null) {
         assert(join_header === null);
     }
@@ -1624,7 +1624,7 @@ function select_output_header(input_header, join_header, query_column_infos) {
         // This means there is no JOIN table.
         join_header = [];
     }
-    let output_header = [];
+    let output_header = leading_column_names === null ? [] : leading_column_names.slice();
     for (let qci of query_column_infos) {
         // TODO refactor this and python version: extract this code into a function instead to always return something
         if (qci === null) {
@@ -1896,18 +1896,22 @@ async function shallow_parse_input_query(query_text, input_iterator, join_tables
 
     if (rb_actions.hasOwnProperty(SELECT)) {
         query_context.top_count = find_top(rb_actions);
+        // "DISTINCT COUNT" puts the number of occurrences in front of every output record, so the header needs a name for it too
+        let leading_column_names = rb_actions[SELECT].hasOwnProperty('distinct_count') ? ['count'] : null;
         if (rb_actions.hasOwnProperty(EXCEPT)) {
             if (rb_actions.hasOwnProperty(JOIN)) {
                 throw new RbqlParsingError('EXCEPT and JOIN are not allowed in the same query');
             }
             let [output_header, select_expression] = translate_except_expression(rb_actions[EXCEPT]['text'], input_variables_map, string_literals, input_header);
+            if (output_header !== null && leading_column_names !== null)
+                output_header = leading_column_names.concat(output_header);
             query_context.select_expression = select_expression;
             query_context.writer.set_header(output_header);
         } else {
             let [select_expression, select_expression_for_header] = translate_select_expression(rb_actions[SELECT]['text']);
             query_context.select_expression = combine_string_literals(select_expression, string_literals);
             let column_infos = adhoc_parse_select_expression_to_column_infos(select_expression_for_header, string_literals);
-            let output_header = select_output_header(input_header, join_header, column_infos);
+            let output_header = select_output_header(input_header, join_header, column_infos, leading_column_names);
             query_context.writer.set_header(output_header);
         }
 
